@@ -340,6 +340,40 @@ def check_array(shape, triples):
     return probs, calls
 
 
+def work_broadcast(chunk):
+    """inputs of different but broadcast-compatible shapes (scalar last term with an array of first terms, a column of
+    first terms against a row of last terms): elementwise means every element of the broadcast result equals the scalar
+    call on the three values that meet at that position"""
+    acc = fw.Acc()
+    v0 = np.array([16.0, 4.0, 22.0, 11.5, 8.5])
+    menus = [('array-scalar-scalar', v0, 10.0, 7.0),
+             ('scalar-array-scalar', 3.5, np.array([3.25, 2.0, 3.5, -1.0]), 3.125),
+             ('array-array-scalar', v0, np.array([10.0, 6.0, 14.0, 12.25, 8.75]), 7.0),
+             ('column-scalar-row', np.array([[16.0], [4.0]]), 10.0, np.array([7.0, 8.5, 9.25])),
+             ('row-column-scalar', np.array([1.0, 2.0, 4.0]), np.array([[1.5], [3.0]]), 2.0)]
+    for name, a, b, c in menus:
+        prob = None
+        try:
+            r, e = lib_dea3(a, b, c)
+            r, e = np.asarray(r), np.asarray(e)
+            ba, bb, bc = np.broadcast_arrays(np.asarray(a, dtype=float), np.asarray(b, dtype=float), np.asarray(c, dtype=float))
+            if r.shape != ba.shape or e.shape != ba.shape:
+                prob = 'shapes %r / %r for inputs that broadcast to %r' % (r.shape, e.shape, ba.shape)
+            else:
+                for idx in np.ndindex(ba.shape):
+                    sr, se = scalar_call((float(ba[idx]), float(bb[idx]), float(bc[idx])))
+                    if bits(np.float64(sr)) != bits(r[idx]) or bits(np.float64(se)) != bits(e[idx]):
+                        prob = ('position %r: (%r, %r), scalar call on (%r, %r, %r): (%r, %r)'
+                                % (idx, r[idx], e[idx], ba[idx], bb[idx], bc[idx], sr, se))
+                        break
+        except Exception as ex:      # noqa: BLE001
+            prob = 'raised %s: %s' % (type(ex).__name__, ex)
+        acc.case(('broadcast', name), nontrivial=True, cell='d:broadcast', outcome=prob is None)
+        if prob:
+            acc.violation('C13:dea3:broadcast-inputs:' + name, dict(part='d', menu=name), 'dea3 with inputs %s: %s' % (name, prob), 1)
+    return acc
+
+
 def work_arrays(chunk):
     acc = fw.Acc()
     for shape, triples in chunk:
@@ -388,6 +422,7 @@ def run(ctx):
     a_cases, b_cases, arr = build_cases(ctx)
     acc = ctx.pmap(work_triples, a_cases + b_cases, chunk=200)
     acc.merge(ctx.pmap(work_arrays, arr, chunk=100))
+    acc.merge(ctx.pmap(work_broadcast, [0], chunk=1))
 
     for c in (('a', 1.0, 1.0, 0.5, 0), ('a', 3.7, -1e-15, -0.9, 5), ('a', 1e15, 1.0, 49.0, 2),
               ('b', (1.0, 1.0 + EPS, 2.0)), ('b', (1e150, -1e150, 1e-300)), ('b', (0.0, 0.0, 0.0))):
@@ -451,6 +486,10 @@ def run(ctx):
 
 def replay(case):
     part = case['part']
+    if part == 'd':
+        a = work_broadcast([0])
+        probs = [r['detail'] for k, (n, recs) in a.viol.items() for r in recs if r['case'].get('menu') == case.get('menu')]
+        return not probs, 'case=%r -> %s' % (case, probs or 'ok')
     if part == 'c':
         probs, _ = check_array(tuple(case['shape']), [[float(x) for x in t] for t in case['triples']])
     elif part == 'a':
